@@ -227,6 +227,8 @@ def _build(p):
             m = np.asfortranarray(m)
         elif p.get("order") == "T":
             m = np.ascontiguousarray(m.T).T
+        if p.get("order") is None and not p.get("vmap") and len(str(rows)) % 3 == 0 and dt in ("int64", "float64"):
+            m = m.tolist()          # the matrix as a nested Python list (numpy's default element type for it is the requested one)
         return (RunLength2dArray if p["cls"] == "2d" else RunLengthRaggedArray).from_array(m)
     ra = RaggedArray(np.array([v for r in rows for v in r], dtype=dt), [len(r) for r in rows])
     return RunLengthRaggedArray.from_ragged_array(ra)
@@ -325,9 +327,9 @@ def run_impl(p):
                 return {"k": "val", "v": _norm(getattr(rl > 1, f)(axis=1 if ax == 1 else -1))}
             cax = -2 if ax % 2 else 0
             if f == "col_sum":
-                return {"k": "val", "v": _norm(np.sum(rl, axis=0) if ax == 2 else rl.sum(axis=cax))}
+                return {"k": "val", "v": _norm((np.sum(rl, 0) if len(str(p["inp"])) % 2 else np.sum(rl, axis=0)) if ax == 2 else rl.sum(axis=cax))}
             if f == "mean0":
-                return {"k": "val", "v": _norm(np.mean(rl, axis=0) if ax == 2 else rl.mean(axis=cax))}
+                return {"k": "val", "v": _norm((np.mean(rl, 0) if len(str(p["inp"])) % 2 else np.mean(rl, axis=0)) if ax == 2 else rl.mean(axis=cax))}
             if f == "any0":
                 thr = p.get("thr", 1)
                 return {"k": "val", "v": _norm(np.any(rl > thr, axis=0) if ax == 2 else (rl > thr).any(axis=cax))}
